@@ -1,4 +1,4 @@
-CONSTANTS MaxR = 1 MaxO = 2 NegFds = 1 DstHi = 3 NPresent = 3 Emitting = FALSE
+CONSTANTS MaxR = 1 MaxO = 2 NegFds = 1 DstHi = 3 NPresent = 3 Piped = FALSE Emitting = FALSE
 SPECIFICATION Spec
 INVARIANT TypeOK
 INVARIANT NoLeakInCode
